@@ -553,6 +553,33 @@ def suite_areas(ctx):
                             ctx.fail("gradient.ResampleBlocksGradientSearchResampler.compute",
                                      f"{method}: target index {idx} lies outside the source grid but received value {v1[idx]}",
                                      {**inp, "method": method, "index": list(idx)}, {"n": int(vout.sum())}, tags={"cause": "value-outside", "method": method}, size=tgt.size)
+                    # two DIFFERENT datasets through the same resampler, evaluated together in one graph (RGB channels, a Dataset's
+                    # variables): each result belongs to its own source, exactly as when it is computed alone
+                    if cs in chunk_sets[:3] or not ctx.quick:
+                        data2_np = np.ascontiguousarray(data_np[..., ::-1, ::-1] * dtype(0.5) - dtype(3)).astype(dtype)
+                        xdata2 = xr.DataArray(da.from_array(data2_np, chunks=dchunks), dims=dims)
+                        for method in vals:
+                            o1 = rs.compute(xdata, method=method, fill_value=np.nan)
+                            o2 = rs.compute(xdata2, method=method, fill_value=np.nan)
+                            alone2 = np.asarray(rs.compute(xdata2, method=method, fill_value=np.nan).values)
+                            how = rng.choice(["dask.compute", "xr.Dataset", "xr.concat"])
+                            if how == "dask.compute":
+                                j1, j2 = dask.compute(o1.data, o2.data)
+                            elif how == "xr.Dataset":
+                                ds = xr.Dataset({"a": o1, "b": o2}).compute()
+                                j1, j2 = ds["a"].values, ds["b"].values
+                            else:
+                                st = xr.concat([o1, o2], dim="stack").compute().values
+                                j1, j2 = st[0], st[1]
+                            ctx.case("area-joint", (label, cs, method, how), nontrivial=True)
+                            ctx.count(f"areas.joint.{how}")
+                            for nm, j, ref in (("first", j1, vals[method]), ("second", j2, alone2)):
+                                if not np.array_equal(np.asarray(j), ref, equal_nan=True):
+                                    nd = int((~((np.asarray(j) == ref) | (np.isnan(j) & np.isnan(ref)))).sum())
+                                    ctx.fail("gradient.ResampleBlocksGradientSearchResampler.compute",
+                                             f"{method}: two datasets resampled by one resampler and evaluated together ({how}): the {nm} result differs from the one computed "
+                                             f"alone in {nd} values", {**inp, "method": method, "how": how}, {"n_diff": nd},
+                                             tags={"cause": "joint-compute", "method": method}, size=tgt.size)
                     results[cs] = (ind_b, vals, inp)
             finally:
                 _set_chunk(4096)
